@@ -14,6 +14,7 @@ func VH15a_handshake() {
 	p := &conn{c: c, proto: ProtocolInfo{Self: self, Peer: peer}}
 	err := p.handshake()
 	verif.Reach("handshake-returned")
+	verif.Observe("handshake", err, c.out, c.closed, p.open, c.reads)
 	// exactly the 8-byte SP header, written before anything was read
 	verif.Assert(len(c.out) == 8, "C15/handshake/sent-8-bytes")
 	if len(c.out) == 8 {
